@@ -16,6 +16,10 @@ for seed in 1 2 77; do
     VERIF_SEED=$seed VERIF_DIGESTS=1 VERIF_NODE_ARGS=--hash-seed=424242 node --hash-seed=424242 simjs/main.js check $p quick --runs $RUNS --workers 3 | grep -E "^DIGEST|^VIOLATION" > $OUT/$p.$seed.b
     if cmp -s $OUT/$p.$seed.a $OUT/$p.$seed.b; then echo "$p seed=$seed runs=$(grep -c DIGEST $OUT/$p.$seed.a): identical (16 workers vs 3 workers + other V8 hash seed)"; else echo "$p seed=$seed: DIFFERENT"; diff $OUT/$p.$seed.a $OUT/$p.$seed.b | head -5; rc=1; fi
   done
+  # C06 once more with the appended static runs (H6, run index >= 3000) included
+  VERIF_SEED=$seed VERIF_DIGESTS=1 node simjs/main.js check C06 quick --runs 3256 --workers 16 | grep -E "^DIGEST|^VIOLATION" > $OUT/C06h.$seed.a
+  VERIF_SEED=$seed VERIF_DIGESTS=1 VERIF_NODE_ARGS=--hash-seed=424242 node --hash-seed=424242 simjs/main.js check C06 quick --runs 3256 --workers 3 | grep -E "^DIGEST|^VIOLATION" > $OUT/C06h.$seed.b
+  if cmp -s $OUT/C06h.$seed.a $OUT/C06h.$seed.b; then echo "C06 (with H6 runs) seed=$seed runs=$(grep -c DIGEST $OUT/C06h.$seed.a): identical (16 workers vs 3 workers + other V8 hash seed)"; else echo "C06 (with H6 runs) seed=$seed: DIFFERENT"; diff $OUT/C06h.$seed.a $OUT/C06h.$seed.b | head -5; rc=1; fi
 done
 # seeds must matter
 if cmp -s $OUT/C16.1.a $OUT/C16.2.a; then echo "C16: seeds 1 and 2 give the same digests (seed ignored?)"; rc=1; fi
